@@ -261,12 +261,15 @@ def case_mibdump(idx, rng, tier, res):
             res.violation(monitor, detail + '\n' + repr(cell) + '\nstderr tail: ' + err[-600:],
                           replay=cell, fmt=fmt, **features)
 
-        if rc not in (0, 79):
-            V('mibdump_exit_code', 'exit code %s' % rc, rc=rc)
+        # which non-zero code stands for missing / failed modules is the tool's business; 64 is taken by
+        # usage errors, and a run that ends without its report (a traceback, say) is a crash, not a verdict
+        if rc == 64 or rc < 0:
+            V('mibdump_exit_code', 'exit code %s for a well-formed command line' % rc, rc=rc)
             return
         rep = parse_report(err)
         if any(v is None for v in rep.values()):
-            V('mibdump_report_incomplete', 'report lacks categories %s' % [k for k, v in rep.items() if v is None])
+            V('mibdump_exit_code' if 'Traceback' in err else 'mibdump_report_incomplete',
+              'exit code %s, report lacks categories %s' % (rc, [k for k, v in rep.items() if v is None]), rc=rc)
             return
         bad = (rep['missing'] or []) + (rep['failed'] or [])
         if (rc == 0) != (not bad):
